@@ -272,3 +272,46 @@ func errNotNilIfI(call *ssa.Call) *ssa.If {
 	}
 	return errNotNilIfI(cs)
 }
+
+// uniqueSiteArg: the argument bound to parameter p when p's function (unexported, named, never used
+// as a value) is invoked from exactly one place — by call, defer or go. Unlike inlineArg this does
+// not depend on inline mode and also covers deferred helpers (`defer a.finish(ticks, &wg, results)`).
+func uniqueSiteArg(p *ssa.Parameter) ssa.Value {
+	if curProgram == nil {
+		return nil
+	}
+	f := p.Parent()
+	if f == nil || f.Parent() != nil || f.Synthetic != "" || f.Pkg == nil || !curProgram.isRepoPkg(f.Pkg.Pkg.Path()) {
+		return nil
+	}
+	if obj := f.Object(); obj == nil || obj.Exported() {
+		return nil
+	}
+	if siteProg != curProgram.SSA {
+		buildSiteIndex(curProgram)
+	}
+	if siteValue[f] || len(siteIndex[f]) != 1 {
+		return nil
+	}
+	args := siteIndex[f][0].Common().Args
+	for k, q := range f.Params {
+		if q == p && k < len(args) {
+			return args[k]
+		}
+	}
+	return nil
+}
+
+// uniqueSite: the one instruction (call, defer or go) that invokes f, or nil.
+func uniqueSite(f *ssa.Function) ssa.CallInstruction {
+	if curProgram == nil || f == nil || len(f.Params) == 0 && f.Parent() != nil {
+		return nil
+	}
+	if siteProg != curProgram.SSA {
+		buildSiteIndex(curProgram)
+	}
+	if siteValue[f] || len(siteIndex[f]) != 1 {
+		return nil
+	}
+	return siteIndex[f][0]
+}
